@@ -14,6 +14,14 @@ def register(claim):
           "Python-level observation of cohdl classes; lattice model written from the property statement",
           "DESIGN.md 3/C13")
 
+    claim("C01",
+          "Grammar-generated async process bodies (awaits on conditions, await true/false, while with break/continue, "
+          "branches containing awaits, awaited sub-coroutines with return, mixed with the sequential statement language) "
+          "are compiled; the emitted state machine is simulated and compared after EVERY clock on every output/internal "
+          "signal with the same body executed directly as a Python generator under the pause rules of the property; "
+          "additionally a bounded breadth-first lock-step exploration applies every input symbol in every reachable "
+          "simulator state. Divergences are minimised to a root-cause signature. Bounded exploration, not proof.",
+          SIM_NOTE, "DESIGN.md 3/C01")
     claim("C03",
           "Grammar-generated bodies of clocked, combinational and concurrent contexts (if/elif/else, match, for-break[-else], "
           "helper calls with returns in nested branches, all assignment forms incl. push, slice/bit targets, local "
